@@ -48,7 +48,13 @@ impl<CS: ConcurrentStream> ConcurrentStream for Take<CS> {
     }
 
     fn size_hint(&self) -> (usize, Option<usize>) {
-        self.inner.size_hint()
+        let (lower, upper) = self.inner.size_hint();
+        let lower = lower.min(self.limit);
+        let upper = match upper {
+            Some(upper) if upper < self.limit => Some(upper),
+            _ => Some(self.limit),
+        };
+        (lower, upper)
     }
 }
 
